@@ -214,12 +214,26 @@ fn main() {
     macro_rules! flows {
         ($( $name:ident ( $( $i:ident : $it:ty ),* ) -> ( $( $o:ident : $ot:ty ),* ) ; )*) => {
             {$(
-            {
+            'flow: {
                 let name = stringify!($name);
-                let mut flow = FlowBuilder::new();
-                let process = flow.process::<()>();
-                h_hydro_b_flows::$name( $( process.embedded_input::<$it>(stringify!($i)) ),* );
-                let built = flow.finalize();
+                // building the flow with the typed API can itself panic (builder assertions)
+                let constructed = std::panic::catch_unwind(|| {
+                    let mut flow = FlowBuilder::new();
+                    let process = flow.process::<()>();
+                    h_hydro_b_flows::$name( $( process.embedded_input::<$it>(stringify!($i)) ),* );
+                    (flow.finalize(), process)
+                });
+                let (built, process) = match constructed {
+                    Ok(x) => x,
+                    Err(e) => {
+                        let msg = if let Some(s) = e.downcast_ref::<&str>() { (*s).to_owned() }
+                            else if let Some(s) = e.downcast_ref::<String>() { s.clone() }
+                            else { "<non-string panic>".to_owned() };
+                        let d = json!({"flow": name, "flow_panic": msg, "ir": [], "locations": [], "codegen": false, "emit_panic": Value::Null});
+                        dumps.push((name.to_owned(), d.to_string()));
+                        break 'flow;
+                    }
+                };
                 let (ir_json, locs, all_ok, emit_panic) = analyse(built.ir());
                 let mut codegen = false;
                 if all_ok {
